@@ -101,6 +101,11 @@ def run(ctx):
         # (plain SA with its single default candidate gives a singular coarse matrix on these problems: outside the hypotheses)
         for bn, ctor in (('rootnode', pyamg.rootnode_solver), ('pairwise', pyamg.pairwise_solver)):
             extra.append(((bn + '-twofield|jacobi', lambda A_, ctor=ctor: ctor(A_), 'sym'), ('twofield-%s-c%g-g%g' % (tname, c_, g_), two_field(T, c_, g_))))
+    # problems in other units (entries ~1e-6 and ~1e6) with the smoothers whose weights come from a spectral-radius estimate
+    Pb = sp.csr_array(_poisson((6, 5), format='csr'))
+    for sc, tg in ((2.0 ** -20, '*2^-20'), (2.0 ** 20, '*2^20')):
+        for bn, ctor in (('sa', pyamg.smoothed_aggregation_solver), ('rs', lambda A_, **kw: pyamg.ruge_stuben_solver(sp.csr_array(A_), **kw))):
+            extra.append(((bn + '-scaled|poly', lambda A_, ctor=ctor: ctor(A_, max_coarse=4), 'sym'), ('poisson2d-6x5' + tg, sp.csr_array(Pb * sc))))
     one = [b for b in hier.builders() if b[0] == 'onelevel'][0]
     extra += [(one, m) for m in mats[:3]]
     combos = extra + list(combos)
@@ -133,6 +138,8 @@ def run(ctx):
         smoothers = list(FAMILY)
         rng.shuffle(smoothers)
         smoothers = [FAMILY[ci % len(FAMILY)], FAMILY[(5 * ci + 2) % len(FAMILY)]] + smoothers
+        if bname.endswith('|poly'):
+            smoothers = [[('richardson', {'omega': 1.0}), ('chebyshev', {'degree': 3})], [('chebyshev', {'degree': 2, 'iterations': 2}), ('jacobi', {'omega': 4.0 / 3.0})]][ci % 2] + smoothers
         if bname.endswith('|jacobi'):
             smoothers = [('jacobi', {'omega': 4.0 / 3.0}), ('jacobi', {'omega': 4.0 / 3.0})] + smoothers
         if bname.endswith('|blockgs'):
@@ -220,6 +227,21 @@ def run(ctx):
                         ctx.fail('cycle-moves-exact-solution/%s' % cname if dist == 0 else 'cycle-increases-energy/%s/nonzero-rhs' % cname,
                                  'b != 0, guess at distance %.3g (energy) from the solution: error after one cycle %.3g' % (ed0, ed1), cs)
                 ctx.count('nonzero-rhs-guess-at-solution')
+                # mixed types: a right-hand side of a narrower type than the guess (real b with a complex guess on a complex
+                # problem, integer b with a float guess on a real one) -- every digit of the guess counts
+                if np.iscomplexobj(A0):
+                    b_m = np.real(b).copy()
+                else:
+                    b_m = np.round(3 * np.real(b)).astype(np.int64)
+                xs_m = np.linalg.solve(A0, b_m.astype(A0.dtype))
+                d_m = 0.05 * (np.array([rng.uniform(-1, 1) for _ in range(n0)]) + (1j * np.array([rng.uniform(-1, 1) for _ in range(n0)]) if np.iscomplexobj(A0) else 0))
+                x_m = ml.solve(b_m, x0=(xs_m + d_m).astype(A0.dtype), maxiter=1, tol=1e-300, cycle=cname, cycles_per_level=cpl)
+                em0 = np.sqrt(abs(np.vdot(d_m, A0 @ d_m)))
+                em1 = np.sqrt(abs(np.vdot(xs_m - x_m, A0 @ (xs_m - x_m))))
+                ctx.count('mixed-dtype-guess')
+                if _nn(em1) > em0 * (1 + 1e-9):
+                    ctx.fail('cycle-increases-energy/%s/mixed-dtypes' % cname, 'b of type %s, guess of type %s: energy error %.3g -> %.3g after one cycle'
+                             % (b_m.dtype, A0.dtype, em0, em1), cs)
     ctx.corr_relations = ['hypotheses of C02_cycle_does_not_increase_energy checked on each built hierarchy '
                           '(R == P^H exact, Galerkin, HPD levels, exact coarse solve, smoother energy norm <= 1)',
                           'dense error propagation of MultilevelSolver.solve: energy norm <= 1 (V, W, F)']
